@@ -143,6 +143,18 @@ if _EXH is not None:
             CONDS = Built([], (lambda values, sub: lambda env: [values[j] for j in sub])(values, sub), (lambda vsrcs, sub: lambda a: "[" + ", ".join(vsrcs[j] for j in sub) + "]")(vsrcs, sub), lambda a: None)
             c = Case(f"{tname}:choices{list(sub)}", [ARG, CONDS], exhaustive_spec(covers))
             con.cases.append(c)
+    # choices with metavalues ('-', 'X', 'U', 'Z' ...) are values of the VHDL type but of no 0/1 selector value: four distinct
+    # choices of a two bit selector cover it only if they are the four 0/1 patterns
+    for kn, K in (("BitVector", BitVector), ("Unsigned", Unsigned)):
+        for name, pats, covers in (("three-and-dont-care", ("00", "01", "10", "1-"), False), ("three-and-X", ("00", "01", "10", "1X"), False), ("three-and-U", ("00", "01", "UU", "11"), False),
+                                   ("all-and-X", ("00", "01", "10", "11", "XX"), True)):
+            ARG = Built([], (lambda K: lambda env: Signal[K[2]]())(K), (lambda kn: lambda a: f"cohdl.Signal[cohdl.{kn}[2]]()")(kn), lambda a: None)
+            CONDS = Built([], (lambda pats: lambda env: [BitVector[2](p) for p in pats])(pats), (lambda pats: lambda a: "[" + ", ".join(f'cohdl.BitVector[2]("{p}")' for p in pats) + "]")(pats), lambda a: None)
+            con.cases.append(Case(f"{kn}[2]:metavalue-choices:{name}", [ARG, CONDS], exhaustive_spec(covers)))
+    for name, vals, covers in (("0-and-X", ("0", "X"), False), ("0-1-and-U", ("0", "1", "U"), True)):
+        ARG = Built([], lambda env: Signal[Bit](), lambda a: "cohdl.Signal[cohdl.Bit]()", lambda a: None)
+        CONDS = Built([], (lambda vals: lambda env: [Bit(v) for v in vals])(vals), (lambda vals: lambda a: "[" + ", ".join(f'cohdl.Bit("{v}")' for v in vals) + "]")(vals), lambda a: None)
+        con.cases.append(Case(f"Bit:metavalue-choices:{name}", [ARG, CONDS], exhaustive_spec(covers)))
     # a selector whose type has no finite set of values the choices could cover
     ARG = Built([], lambda env: Signal[int](), lambda a: "cohdl.Signal[int]()", lambda a: None)
     CONDS = Built([], lambda env: [cohdl.Integer(0), cohdl.Integer(1)], lambda a: "[cohdl.Integer(0), cohdl.Integer(1)]", lambda a: None)
